@@ -349,8 +349,10 @@ def check_hooks():
             if k == R.REPLY or real2.a != "A":
                 viol.append(("restricted-view-write:read-only-view-written:%s" % type(empty).__name__, "cfg %r" % (cfg,)))
             k, a = peer.request(4, RP.yours(idp), RP.val("a"))
-            if (k, a) != (R.REPLY, RP.val("A")):
+            if k != R.REPLY:
                 viol.append(("restricted-view-read:a:refused", "cfg %r" % (cfg,)))
+            elif a != RP.val(real2.a):
+                viol.append(("restricted-view-read:a:wrong-value", "cfg %r: %r" % (cfg, a)))
         # a Service denies set/del on itself whatever the configuration
         class Sv(_rpyc.Service):
             exposed_v = 1
